@@ -252,6 +252,7 @@ def mk_join(it, mode='half-outer', source_delete=True, agg='sum', target_key=Tru
 
     def KV(it_, a, k):
         db = Opaque('KVFile', 'db%d' % len(dbs))
+        db.ctor_args = (tuple(a), dict(k))
         dbs.append(db)
         return db
     m.attrs['KVFile'] = UFunc('KVFile', KV, True)
@@ -261,6 +262,10 @@ def mk_join(it, mode='half-outer', source_delete=True, agg='sum', target_key=Tru
     func = it.call(j, ['src', PyList([key_names[0]]), 'tgt', PyList([key_names[1]]) if target_key else None],
                    dict(fields=fields, mode=mode, source_delete=source_delete))
     usage, db = dbs[0], dbs[1]
+    # T6 is assumed for the store AS THE LIBRARY CREATES IT BY DEFAULT (values pickled: what is read back is equal to what was stored,
+    # whatever its type -- dates with microseconds, Decimals, tuples, non-string keys).  Another serializer is another contract.
+    from pyvc.api import check
+    check(it, 'index-stores-are-created-with-the-default-lossless-serializer', all(d.ctor_args == ((), {}) for d in dbs))
     return func, usage, db
 
 
